@@ -95,8 +95,13 @@ def one_case(ctx, mon, time, rate, accel, jerk, accum, ambient):
     mon.ambient = ambient.describe()
     try:
         with ambient:
-            got = ebb_calc.move_dist_t3(time, rate, accel, jerk, accum)
-            ebb_calc.rate_t3(time, rate, accel, jerk)
+            if (rate + time) % 9 == 0:
+                got = G.by_keyword(ebb_calc.move_dist_t3, (time, rate, accel, jerk, accum))
+                G.by_keyword(ebb_calc.rate_t3, (time, rate, accel, jerk))
+                ctx.tag("arguments passed by keyword")
+            else:
+                got = ebb_calc.move_dist_t3(time, rate, accel, jerk, accum)
+                ebb_calc.rate_t3(time, rate, accel, jerk)
             if jerk == 0:
                 lt = ebb_calc.move_dist_lt(rate, accel, time, accum)
                 ctx.count("monitor:zero-jerk coincidence with move_dist_lt")
@@ -228,7 +233,7 @@ def run(ctx):
     import_time_phase(ctx, ctx.budget(800, 6000))
     mon = install(ctx)
     for cls in NEEDED + ["history: related arguments after a previous call", "module imported under low precision",
-                         "'clear' passed as a string built at run time",
+                         "'clear' passed as a string built at run time", "arguments passed by keyword",
                          "after a failed call (malformed arguments, exception caught by the caller)"]:
         ctx.need(cls, 40)
     ctx.need("monitor:move_dist_t3 evaluated", 30_000)
